@@ -348,6 +348,16 @@ struct Dumper
             J.attribute("t", ty(x->getType()));
             const CXXMethodDecl* md = x->getMethodDecl();
             funcRef(md);
+            if (!md) {
+                // (obj->*pm)(args): no method declaration; keep the pointer-to-member expression
+                if (auto* bo = dyn_cast<BinaryOperator>(strip(x->getCallee()))) {
+                    if (bo->isPtrMemOp()) {
+                        J.attributeBegin("memptr");
+                        expr(bo->getRHS());
+                        J.attributeEnd();
+                    }
+                }
+            }
             if (auto* me = dyn_cast<MemberExpr>(strip(x->getCallee()))) {
                 if (me->hasQualifier())
                     J.attribute("qualified", true);  // non-virtual dispatch Base::f()
